@@ -10,6 +10,7 @@
   with everything applied anywhere.
 -/
 import RaftVerif.Proofs.LeaderSpecs
+import RaftVerif.Proofs.ReplSafety
 import RaftVerif.Properties.C08
 set_option linter.unusedSimpArgs false
 namespace Raft
@@ -54,5 +55,23 @@ theorem C07_leader_never_truncates (n : Node) (now data i : Nat) :
           simp only
           split <;> simp <;> split <;> simp
         · simp
+
+/-! ### Cluster level (Proofs/ReplSafety.lean) -/
+
+/-- **Leader completeness.** In every reachable state of the replication-layer model: a
+    position `(i, t)` of the leader log of term `t` that a quorum acknowledged in term `t` is
+    in the log of the leader of every later term `T`, together with everything before it. -/
+theorem C07_leader_completeness {cfg : Config} (hnd : cfg.voterIds.Nodup) {s : Repl.AState} (hr : Repl.Reachable cfg s)
+    (t c : Nat) (g : List Repl.AEntry) (i : Nat) (hg : s.glog t = some (c, g)) (h1 : 1 ≤ i) (hig : i ≤ g.length)
+    (hti : Repl.termAt g i = t) (hq : Repl.QuorumAcked cfg s i t)
+    (T c' : Nat) (gT : List Repl.AEntry) (hT : s.glog T = some (c', gT)) (hlt : t < T) :
+    gT.take i = g.take i :=
+  Repl.leader_completeness hnd hr t c g i hg h1 hig hti hq T c' gT hT hlt
+
+/-- every node's committed prefix is a prefix of the log of every leader of a later term -/
+theorem C07_committed_in_later_leaders {cfg : Config} (hnd : cfg.voterIds.Nodup) {s : Repl.AState} (hr : Repl.Reachable cfg s)
+    (a : Nat) (T c : Nat) (gT : List Repl.AEntry) (hT : s.glog T = some (c, gT)) (hlt : (s.nodes a).term < T) :
+    (s.nodes a).log.take (s.nodes a).commit <+: gT :=
+  Repl.committed_in_later_leaders hnd hr a T c gT hT hlt
 
 end Raft
